@@ -535,3 +535,48 @@ def run(rep: Report, prog: Program, tier: str) -> None:
         rep.ok("C03-DTLSROLE", "__validate_description rejects answers without a definite role", sample=unparse(checks[0].test)[:80])
     else:
         rep.fail(mk_finding(prog, PROP, "C03-DTLSROLE", val, checks[0] if checks else val.node, "answers whose DTLS role is not client/server are not rejected", construct="answer role validation"))
+
+    # ---------------------------------------------------------------- C03-BUNDLE
+    rep.rule("C03-BUNDLE", "moving an object onto the BUNDLE primary transport is a one-shot step (guarded by and latching _bundled)", min_instances=2)
+    moves: Dict[int, Tuple[ast.If, str]] = {}
+    pmr = {}
+    for p in ast.walk(set_remote.node):
+        for ch in ast.iter_child_nodes(p):
+            pmr[id(ch)] = p
+    n_moves = 0
+    for n in walk_no_nested(set_remote.node):
+        if isinstance(n, ast.Call) and isinstance(n.func, ast.Attribute) and n.func.attr == "setTransport":
+            n_moves += 1
+            owner = unparse(n.func.value)
+            for suffix in (".receiver", ".sender"):
+                if owner.endswith(suffix):
+                    owner = owner[: -len(suffix)]
+            cur: Any = n
+            blk_if = None
+            while id(cur) in pmr:
+                par = pmr[id(cur)]
+                if isinstance(par, ast.If) and any(cur is b for b in par.body):
+                    conj = par.test.values if isinstance(par.test, ast.BoolOp) and isinstance(par.test.op, ast.And) else [par.test]
+                    if any(isinstance(c, ast.UnaryOp) and isinstance(c.op, ast.Not) and unparse(c.operand) == f"{owner}._bundled" for c in conj):
+                        blk_if = par
+                        break
+                cur = par
+            if blk_if is None:
+                rep.fail(mk_finding(prog, PROP, "C03-BUNDLE", set_remote, n, f"`{unparse(n)}` is not guarded by `not {owner}._bundled`: a later negotiation would move (and stop) the "
+                                    f"transport again", construct=f"unguarded setTransport of {owner}"))
+                continue
+            moves.setdefault(id(blk_if), (blk_if, owner))
+    for blk_if, owner in moves.values():
+        latch = any(isinstance(s, ast.Assign) and unparse(s.targets[0]) == f"{owner}._bundled" and isinstance(s.value, ast.Constant) and s.value.value is True for s in blk_if.body)
+        if latch:
+            rep.ok("C03-BUNDLE", f"setRemoteDescription: {owner} moved to the primary transport once", sample=f"guarded by not {owner}._bundled and latched")
+        else:
+            rep.fail(mk_finding(prog, PROP, "C03-BUNDLE", set_remote, blk_if,
+                                f"{owner} is moved onto the primary transport under `not {owner}._bundled` but the flag is not set afterwards: the next negotiation treats it as "
+                                f"unbundled again and stops the transport it shares with the primary section", construct=f"_bundled latch of {owner}"))
+    if n_moves < 3:
+        raise AnalysisError("setTransport() calls of the bundling step not found in setRemoteDescription")
+
+    # ---------------------------------------------------------------- C03-SLOTS (shared with C14)
+    from .common import description_slots_rule
+    description_slots_rule(rep, prog, PROP, "C03-SLOTS")
